@@ -341,12 +341,16 @@ def rn3(prog, rr):
         if isinstance(n, ast.Call) and call_name(n) == "set_val":
             lp = _enclosing_for(rnd.node, n)
             ok = False
-            if lp is not None and isinstance(lp.iter, ast.Name):
-                for a in walk_local(rnd.node):
-                    if isinstance(a, ast.Assign) and any(isinstance(t, ast.Name) and t.id == lp.iter.id for t in a.targets):
-                        if "is_used_rand" in norm(a.value) and "filter" in norm(a.value) or "if" in norm(a.value) and "is_used_rand" in norm(a.value):
-                            if "not" not in norm(a.value).split("is_used_rand")[0][-12:]:
-                                ok = True
+            if lp is not None:
+                # the iterable, with a local holding the filtered list followed to its definition(s)
+                srcs = [norm(lp.iter)]
+                if isinstance(lp.iter, ast.Name):
+                    srcs = [norm(a.value) for a in walk_local(rnd.node)
+                            if isinstance(a, ast.Assign) and any(isinstance(t, ast.Name) and t.id == lp.iter.id for t in a.targets)]
+                for src in srcs:
+                    if "is_used_rand" in src and ("filter" in src or "if" in src):
+                        if "not" not in src.split("is_used_rand")[0][-12:]:
+                            ok = True
             rr.inst("unconstrained draw at line %d guarded=%s" % (n.lineno, ok))
             if not ok:
                 rr.finding(rnd, n, "Randomizer.randomize", "RN3: unconstrained fields are assigned without filtering by is_used_rand: non-random "
